@@ -105,7 +105,13 @@ func buildGoldenOpt(c *fw.Case, r *rand.Rand, minN, maxN int, indexOut bool) (*c
 		req.Prod = true
 		req.Final = s.cl.Head
 		req.Workers = 2
-		if pl, err := s.cl.PlanFor(req); err != nil || pl.KnownHangShape() || pl.Plan.WriteExecOut == nil {
+		pl0, err := s.cl.PlanFor(req)
+		if err != nil || pl0.KnownHangShape() || pl0.Plan.WriteExecOut == nil {
+			s.close()
+			continue
+		}
+		if indexOut && pl0.Plan.BuildStores == nil && attempt < 150 {
+			// an index output module is interesting to the scheduler when stores are built below it
 			s.close()
 			continue
 		}
@@ -124,6 +130,12 @@ func buildGoldenOpt(c *fw.Case, r *rand.Rand, minN, maxN int, indexOut bool) (*c
 		if len(res.Jobs) == 0 {
 			s.close()
 			continue
+		}
+		// a clean run that ended without error must have written the output module's file of every requested segment
+		if missing := missingOutputFiles(pl0, s, g.out, s.cl); len(missing) > 0 {
+			c.Violation(c.Spec.ID+"/output-file-missing-after-clean-run", fmt.Sprintf("the clean run on an empty cache ended without error but left no file %v for the output module", missing), s.witness(map[string]any{"request": req, "jobs": res.Jobs}))
+			s.close()
+			return nil, false
 		}
 		g.req = req
 		root := filepath.Join(s.cl.Dir, s.cl.Tag)
@@ -479,4 +491,38 @@ func runC07Race(c *fw.Case) {
 		af, _ := s.cl.AuditCache(ref, s.pkg)
 		s.report("C07/concurrent", af, map[string]any{"audited_against_output": out})
 	}
+}
+
+
+// missingOutputFiles lists the output module's cache files (cached outputs, or index files for a block-index output
+// module) that a completed production request should have written and that are absent.
+func missingOutputFiles(pl *sim.Planned, s *scen, out string, cl *sim.Cluster) (missing []string) {
+	if pl.Plan.WriteExecOut == nil {
+		return nil
+	}
+	h := pl.Graph.ModuleHashes().Get(out)
+	seg := pl.Plan.WriteOutSegmenter()
+	init := pl.Graph.ModulesInitBlocks()[out]
+	have := map[string]bool{}
+	for _, f := range cl.ListCache() {
+		have[f.Rel] = true
+	}
+	for k := seg.FirstIndex(); k <= seg.LastIndex(); k++ {
+		r := seg.Range(k)
+		if r == nil || r.ExclusiveEndBlock <= init {
+			continue
+		}
+		start := r.StartBlock
+		if start < init {
+			start = init
+		}
+		rel := fmt.Sprintf("%s/outputs/%010d-%010d.output.zst", h, start, r.ExclusiveEndBlock)
+		if s.pkg.Kind[out] == "index" {
+			rel = fmt.Sprintf("%s/index/%010d-%010d.index.zst", h, start, r.ExclusiveEndBlock)
+		}
+		if !have[rel] {
+			missing = append(missing, rel)
+		}
+	}
+	return missing
 }
